@@ -128,3 +128,42 @@ Theorem c04_source_pipeline_handout : forall s0 P g t cur b0 fuel s' j b,
   forall x, anc s' x j -> x <> j -> st s' x <= c_BUSY /\ (st s' x <> c_DONE -> anc s' b x).
 Proof. exact source_pipeline_handout. Qed.
 Print Assumptions c04_source_pipeline_handout.
+
+From SLU Require Import SchedInitGen SchedInitTie.
+
+(* THE SOURCE TIE OF THE INITIAL STATE.  gen_pxgstrf_relax_snode, gen_queue_init, gen_EnqueueRelaxSnode, gen_ParallelInit
+   (SchedInitGen.v) are re-translated on every run from SRC/pxgstrf_relax_snode.c and SRC/pxgstrf_synch.c.  The relaxed
+   supernodes: for every n >= 0, every etree in which every column j < n has a parent in (j, n] (etree_ok), every relax, any
+   contents of the caller's array and fuel >= n + 2, the translated routine stores in pxgstrf_relax[] exactly the list
+   SchedModel.relax_snode (entries 1..m, the sentinel first column n at m + 1, the count m in entry 0: enc_relax). *)
+Theorem c04_source_relax_snode_is_model : forall n et relax fc szs fuel,
+  0 <= n -> etree_ok n et -> (Z.to_nat n + 2 <= fuel)%nat ->
+  gen_pxgstrf_relax_snode n et relax fc szs fuel = Some (enc_relax n (relax_snode n et relax) fc szs).
+Proof. exact relax_snode_tie. Qed.
+Print Assumptions c04_source_relax_snode_is_model.
+
+(* gen_init (SchedInitTie.v) = the translated pxgstrf_relax_snode followed by the translated ParallelInit on the array it filled
+   (the order of p?gstrf_thread_init.c), packed into a model state.  For every n >= 1 (for n = 0 the C routine aborts in
+   queue_init: parallel_init_aborts_n0), etree_ok, panel_size >= 1, an array pxgstrf_relax[] of n + 2 entries, any initial
+   contents of the task queue fields and fuel >= n + 2 it returns exactly SchedModel.parallel_init: EVERY field of the sstate
+   (panel types / states / sizes / ukids, fb_cols, the task queue with the relaxed supernodes, head / tail / count,
+   tasks_remain, num_splits, spin locks).  Memory that the C code leaves uninitialised (malloc) is taken to be 0, as in the
+   model (argument junk = 0 of gen_ParallelInit). *)
+Theorem c04_source_init_is_model : forall n et psz relax fc0 sz0 q0 h0 t0 c0 fuel,
+  1 <= n -> etree_ok n et -> 1 <= psz -> lenZ fc0 = n + 2 -> lenZ sz0 = n + 2 -> (Z.to_nat n + 2 <= fuel)%nat ->
+  gen_init n et psz relax fc0 sz0 q0 h0 t0 c0 fuel = Some (parallel_init n et psz relax).
+Proof. exact init_tie. Qed.
+Print Assumptions c04_source_init_is_model.
+
+(* translated init, then a run of P threads in which every scheduler call is a call of the TRANSLATED scheduler (src_run,
+   SchedInitTie.v; c04_source_scheduler_is_model_reachable at every call): the run is step by step a run of the model started
+   from parallel_init, and every state it reaches is a reachable state of the model -- so c04_queue_bounds, c04_tasks_remain_exact,
+   c04_each_panel_at_most_once, c03_pipeline_handout .. hold along it.  check_init: the model's executable admission test. *)
+Theorem c04_source_init_then_scheduler_in_model : forall n et psz relax fc0 sz0 q0 h0 t0 c0 fuel s0 P ls,
+  1 <= n -> etree_ok n et -> 1 <= psz -> lenZ fc0 = n + 2 -> lenZ sz0 = n + 2 -> (Z.to_nat n + 2 <= fuel)%nat ->
+  gen_init n et psz relax fc0 sz0 q0 h0 t0 c0 fuel = Some s0 -> check_init s0 = true ->
+  s0 = parallel_init n et psz relax /\
+  src_run (ginit s0 P) ls = grun (ginit s0 P) ls /\
+  forall g, src_run (ginit s0 P) ls = Some g -> reachable (parallel_init n et psz relax) P g.
+Proof. exact source_init_run_in_model. Qed.
+Print Assumptions c04_source_init_then_scheduler_in_model.
